@@ -137,8 +137,15 @@ struct CliCase {
     rename: bool,
 }
 
+/// Symbolic links (CLI phase): a link to a regular file is a file of the tree like any other; a
+/// link to a directory — even one named like a source file — is neither read nor followed. The
+/// targets live in a hidden directory, outside every scope.
+const FILE_LINK: &str = "lnk.py";
+const DIR_LINK: &str = "dirlnk.js";
+const LINK_TARGET_DIR: &str = ".targets";
+
 fn all_paths() -> Vec<&'static str> {
-    PATHS.iter().chain(HIDDEN).chain(GITIGNORED).copied().collect()
+    PATHS.iter().chain(HIDDEN).chain(GITIGNORED).copied().chain([FILE_LINK, DIR_LINK]).collect()
 }
 
 fn check_cli(cfg: &Cfg, c: &CliCase, sink: &Sink) {
@@ -147,7 +154,12 @@ fn check_cli(cfg: &Cfg, c: &CliCase, sink: &Sink) {
     let globs: Vec<&str> = c.globs.iter().map(|&i| GLOBS[i]).collect();
     let ignores: Vec<&str> = c.ignores.iter().map(|&i| GLOBS[i]).collect();
     let diff_files: Vec<&str> = c.diff.map(|i| vec![tree[i]]).unwrap_or_default();
-    let expected = expected_scope(&tree, &globs, &ignores, &diff_files, c.diff.is_some());
+    if diff_files.iter().any(|f| *f == FILE_LINK || *f == DIR_LINK) {
+        return; // the diffs of this phase are made from regular files
+    }
+    // A link to a directory is not a file of the tree.
+    let files_of_tree: Vec<&str> = tree.iter().copied().filter(|p| *p != DIR_LINK).collect();
+    let expected = expected_scope(&files_of_tree, &globs, &ignores, &diff_files, c.diff.is_some());
     let input = json!({"cli": true, "tree": c.tree, "globs": c.globs, "ignores": c.ignores, "diff": c.diff, "rename": c.rename});
     thread_local! {
         static REPO: Scratch = Scratch::repo("c15");
@@ -159,6 +171,12 @@ fn check_cli(cfg: &Cfg, c: &CliCase, sink: &Sink) {
         for (i, p) in tree.iter().enumerate() {
             // The file named in the diff carries the padding its diff was made with.
             let padding = if c.diff == Some(i) { "pad_a = 1\npad_b = 2\npad_c = 3\npad_d = 4\n" } else { "" };
+            if *p == FILE_LINK || *p == DIR_LINK {
+                repo.write(&format!("{LINK_TARGET_DIR}/real.py"), &file_text(FILE_LINK));
+                let target = if *p == FILE_LINK { format!("{LINK_TARGET_DIR}/real.py") } else { LINK_TARGET_DIR.to_string() };
+                std::os::unix::fs::symlink(target, repo.dir.join(p)).expect("symlink");
+                continue;
+            }
             repo.write(p, &format!("{padding}{}", file_text(p)));
         }
         // A real git diff that modifies the chosen file (old version: another value).
@@ -217,7 +235,7 @@ fn check_cli(cfg: &Cfg, c: &CliCase, sink: &Sink) {
 }
 
 pub fn run(cfg: &Cfg, sink: &Arc<Sink>) -> Report {
-    let mut report = Report::new("cases = directory trees over paths {x.py, a/x.py, b/x.py, b/b/x.py, a/b/y.py, 'sp ace/x.py', d.d/x.py, b/b/b/z.py, hid/x.py, pkg.py/x.py (a directory named like a source file)} (every file holds one block named after its path) × 0..2 positional globs × 0..2 --ignore globs from {*.py, a/**, **/x.py, b/x.py, **, b/*, **/b/**, .hid/**, hid/*} (CLI phase also --ignore **/b and a/b, which equal a directory's own path) × {no diff, diff naming any subset of ≤2 files}; library phase over an in-memory tree (all trees of ≤2, thorough ≤3, paths); CLI phase in real directories with hidden files, a .gitignore'd directory, real `git diff` output (plain edits and rename+edit with -M) and every directory of the tree as current directory; oracle: the set of files with listed blocks equals ((walk ∖ hidden ∖ git-ignored) ∩ globs ∪ files named in the diff) ∖ --ignore, with `**` implied when run without globs and without diff; non-trivial = every case");
+    let mut report = Report::new("cases = directory trees over paths {x.py, a/x.py, b/x.py, b/b/x.py, a/b/y.py, 'sp ace/x.py', d.d/x.py, b/b/b/z.py, hid/x.py, pkg.py/x.py (a directory named like a source file)} (every file holds one block named after its path) × 0..2 positional globs × 0..2 --ignore globs from {*.py, a/**, **/x.py, b/x.py, **, b/*, **/b/**, .hid/**, hid/*} (CLI phase also --ignore **/b and a/b, which equal a directory's own path) × {no diff, diff naming any subset of ≤2 files}; library phase over an in-memory tree (all trees of ≤2, thorough ≤3, paths); CLI phase in real directories with hidden files, a .gitignore'd directory, a symbolic link to a file and one to a directory named like a source file, real `git diff` output (plain edits and rename+edit with -M) and every directory of the tree as current directory; oracle: the set of files with listed blocks equals ((walk ∖ hidden ∖ git-ignored) ∩ globs ∪ files named in the diff) ∖ --ignore, with `**` implied when run without globs and without diff; non-trivial = every case");
     report.assume("globset decides whether a glob matches a path (same crate, default options, as the documented forms are defined by it)");
     let thorough = cfg.tier == Tier::Thorough;
     // Library phase.
